@@ -91,6 +91,42 @@ theorem c14_capture_keeps_stderr_reader :
   have := h ⟨0, .r⟩
   simp at this
 
+/-- **C14 (the cleanup of a failed start waits with nothing held, whatever the started commands own).**
+    `Pipeline::popen` releases the pipe ends of *all* commands started so far before any of them is waited for
+    (fix e678f50).  For every assignment of pipe ends to the started `Popen`s -- the pipeline's own stdin writer, but also
+    ends the model's `Cfg` does not know, such as the read end of a command's own `stderr(Redirection::Pipe)` -- and every
+    set of ends held at the failure that are all owned by some started `Popen`: every wait happens with nothing held. -/
+theorem c14_cleanup_waits_with_nothing_held (owned : List (List End)) (det : Nat → Bool) (h0 : Held)
+    (hcov : ∀ e, h0 e ≠ none → ∃ es ∈ owned, e ∈ es) :
+    WaitsUnder (fun h => ∀ e, h e = none) h0 (cleanupSeq owned det) := by
+  unfold cleanupSeq
+  rw [waitsUnder_append]
+  refine ⟨waitsUnder_noWait _ _ _ ?_, ?_⟩
+  · intro a ha
+    simp only [releaseAll, List.mem_flatMap, List.mem_map] at ha
+    obtain ⟨es, _, e, _, rfl⟩ := ha
+    simp
+  · have hnone : heldAfter h0 (releaseAll owned) = fun _ => none := by
+      rw [heldAfter_releaseAll]
+      funext e
+      by_cases hm : ∃ es ∈ owned, e ∈ es
+      · simp [hm]
+      · simp only [hm, if_false]
+        cases hh : h0 e with
+        | none => rfl
+        | some b => exact absurd (hcov e (by simp [hh])) hm
+    rw [hnone]
+    exact waitsUnder_waitAll_empty det owned.length
+
+/-- F14 (repaired by e678f50): with the old order -- each `Popen` releases its own ends and is waited for before the next
+    one is touched -- command 0 is waited for while `Popen` 1 still holds an end (the read end of command 1's own stderr
+    pipe, say) -/
+theorem c14_cleanup_counterexample_old :
+    ¬ WaitsUnder (fun h => ∀ e, h e = none) (fun e => if e = ⟨7, .r⟩ then some true else none)
+        (cleanupSeqOld [[], [⟨7, .r⟩]] (fun _ => false)) := by
+  intro h
+  simp [cleanupSeqOld, WaitsUnder, List.range, List.range.loop] at h
+
 /-! Non-vacuity (tests, labelled as tests): a concrete failing pipeline and what the model says -/
 example : (run { n := 3, det := fun _ => false, sin := .pipe, sout := .inherit, serr := .inherit, errTo := false,
                  failAt := some 2 } .join).filterMap waitIdx = [0, 1] := by decide
